@@ -11,7 +11,7 @@ RULE = ('Hypothesis draws (ping_interval, ping_timeout, grace) from a grid inclu
         'equal values, monitor on/off, 1..4 sessions (WebSocket or polling with a poll always '
         'pending), per session a peer profile - PONG delay in {0, T/2, T-e, T, T+e, 2T} or never '
         'answering or vanishing - and a schedule of application sends, manual PONGs, other client traffic (MESSAGE posts / frames, also from peers that never answer the PING) and clock '
-        'steps placed just before / at / just after the next server deadline. Oracle (virtual '
+        'steps placed just before / at / just after the next server deadline; plus populations of 1..n concurrent sessions (live bystanders, peers that never answer) while a new session appears every T/8..3T/4 for longer than the bound. Oracle (virtual '
         'time, tolerance 1e-6): PINGs are observed exactly at open+I and at every PONG+I and '
         'nowhere else; a peer whose every PONG arrived within T-e is never disconnected and a ping '
         'timeout is only declared for a PING outstanding for more than T; a peer that never answers is '
@@ -218,11 +218,82 @@ def summarize(ex):
             'pings': sum(len(s.pings) for s in ex.sessions)}, nt, sorted(cls)
 
 
+# -- many concurrent sessions with the table changing all the time ----------------------------
+churn_case = st.fixed_dictionaries({
+    'churn': st.just(True),
+    'impl': st.sampled_from(['thread', 'async']),
+    'I': st.sampled_from([1, 2.5]), 'T': st.sampled_from([1, 2.5]),
+    'bystanders': st.sampled_from([0, 2, 3, 5]),        # live peers opened first
+    'victims': st.integers(1, 2),                       # peers that never answer, opened next
+    'period': st.sampled_from(['T/8', 'T/4', 'T/2', '3T/4']),   # a new peer appears this often
+    'newcomer': st.sampled_from(['silent', 'silent', 'closes']),
+})
+
+
+def check_churn(case, ctx=None):
+    """Dead peers among 1..n concurrent sessions, while sessions keep coming (and, once they time
+    out, going): each peer that never answered is dropped within ping_interval + 3 x
+    ping_timeout, every peer that answers stays."""
+    from vk.machine import Exec
+    from vk import refmodel as rm
+    I, T = case['I'], case['T']
+    ex = Exec(case['impl'], {'ping_interval': I, 'ping_timeout': T, 'monitor_clients': True,
+                             'http_compression': False})
+    rep = dict(case)
+    period = {'T/8': T / 8, 'T/4': T / 4, 'T/2': T / 2, '3T/4': 3 * T / 4}[case['period']]
+    try:
+        for _ in range(case['bystanders']):
+            ex.do({'op': 'open', 'transport': 'polling', 'autopong': True, 'autopoll': True})
+        for _ in range(case['victims']):
+            ex.do({'op': 'open', 'transport': 'polling', 'autopong': False, 'autopoll': False})
+        t0 = ex.now
+        n_live = case['bystanders']
+        while ex.now < t0 + I + 3 * T + 2 * period:
+            ex.do({'op': 'advance', 'dt': period})
+            ex.do({'op': 'open', 'transport': 'polling', 'autopong': False, 'autopoll': False})
+            if case['newcomer'] == 'closes':
+                ex.do({'op': 'post', 's': len(ex.sessions) - 1, 'pkts': [[1, rm.tag(None)]]})
+        ex.do({'op': 'advance', 'dt': TICK})
+        late, dropped = [], 0
+        for s in ex.sessions:
+            evs, t_open, disc = facts(ex, s)
+            if t_open is None:
+                continue
+            if s.autopong:
+                if disc is not None:
+                    raise Violation(ID, ex.impl, 'live-peer-disconnected', 'polling|churn|%s' % (
+                        disc[1],), 'session %d answers every PING but was disconnected at %.3f '
+                        '(%r) while other sessions came and went' % (s.ord, rel(disc[0]), disc[1]),
+                        rep)
+                continue
+            if disc is not None:
+                dropped += 1
+            limit = t_open + I + 3 * T
+            if ex.now > limit + TOL and (disc is None or disc[0] > limit + TOL):
+                late.append((s.ord, round(rel(t_open), 3), disc and round(rel(disc[0]), 3)))
+        if late:
+            raise Violation(ID, ex.impl, 'silent-peer-not-dropped-in-time', 'polling|churn',
+                            '%d of %d sessions that never answered were not dropped within I + 3T '
+                            '(I=%s T=%s, a new session every %s): (session, opened, dropped) %s' % (
+                                len(late), len(ex.sessions) - n_live, I, T, case['period'],
+                                late[:6]), rep)
+        if ctx:
+            ctx.case(rep, True, ['churn', ex.impl, 'bystanders=%d' % case['bystanders'],
+                                 'newcomers-' + case['newcomer'], 'period-' + case['period'],
+                                 'dropped>=5' if dropped >= 5 else 'dropped<5'])
+    finally:
+        ex.close()
+
+
 def run_shard(ctx):
     quick = ctx.tier == 'quick'
+    from vk.runner import run_given
+    run_given(ctx, churn_case, lambda c: check_churn(c, ctx), max_examples=6 if quick else 60)
     history_property(ctx, ID, PROFILE, [monitor], summarize,
                      max_examples=200 if quick else 3000, steps=25 if quick else 50)
 
 
 def replay(case, ctx):
+    if case.get('churn'):
+        return check_churn(case)
     run_trace(ID, case, [monitor])
